@@ -32,9 +32,15 @@ def cmp_poly(e):
     """comparison -> (op class, poly of left - right)"""
     if isinstance(e, ast.Compare) and len(e.ops) == 1:
         try:
-            return type(e.ops[0]), to_poly(e.left) - to_poly(e.comparators[0])
+            op, p = type(e.ops[0]), to_poly(e.left) - to_poly(e.comparators[0])
         except NotPoly:
             return None
+        # canonical orientation: a > b is b < a, a >= b is b <= a (only <, <=, ==, != remain)
+        if op is ast.Gt:
+            return ast.Lt, -p
+        if op is ast.GtE:
+            return ast.LtE, -p
+        return op, p
     return None
 
 
@@ -65,13 +71,13 @@ def check(m, run):
             if len(atoms) != 1:
                 return False
             N = Poly.atom(atoms[0])
-            # num <= 0 | num < 1 | not num > 0 | not num >= 1
+            # num <= 0 | num < 1 | not 0 < num | not 1 <= num   (canonical orientation, see cmp_poly)
             return (op is ast.LtE and pol and p == N) or (op is ast.Lt and pol and p == N - 1) or \
-                (op is ast.Gt and not pol and p == N) or (op is ast.GtE and not pol and p == N - 1)
+                (op is ast.Lt and not pol and p == -N) or (op is ast.LtE and not pol and p == 1 - N)
 
         def is_deg2(op, p, pol):
             return (op is ast.Lt and pol and p == D - 2) or (op is ast.LtE and pol and p == D - 1) or \
-                (op is ast.GtE and not pol and p == D - 2) or (op is ast.Gt and not pol and p == D - 1)
+                (op is ast.LtE and not pol and p == 2 - D) or (op is ast.Lt and not pol and p == 1 - D)
         tests = {'bezier': (is_bezier, 'degree + 1 != len(ctrlpts) (non-Bezier input)'), 'num': (is_num, 'num <= 0'), 'degree2': (is_deg2, 'degree < 2')}
         for c in conds:
             fn_, desc = tests[c]
